@@ -9,7 +9,7 @@
  *     cksum / flush <bytes> / retire          caller: frame checksum appended to the last job, bytes handed out, job retired
  *     abort               the frame was abandoned (session reset or error): the ring is emptied
  *     end <ok|FAIL ...> frames=<n> in=<bytes> out=<bytes>
- * op:  mt <workers> <id=val,...|-> <size> <seed> <in-chunks csv> <out-caps csv> <perturb 0..4> <pseed> <abortAfterCalls|-1> <midLevel|0> <frames>
+ * op:  mt <workers> <id=val,...|-> <size> <seed> <in-chunks csv> <out-caps csv> <perturb 0..6> <pseed> <abortAfterCalls|-1> <midLevel|0> <frames> [<id=val,... for odd frames>]
  * perturb (5 = jobs reach the serial section in reversed order within each group of three): 0 none, 1 random yields / sleeps before every primitive, 2 worker W0 is slow, 3 the caller is slow, 4 the serial section is slow. */
 #define _GNU_SOURCE
 #include <stdio.h>
@@ -65,7 +65,7 @@ static ZSTDMT_jobDescription* g_job[RING];          /* posted job descriptions b
 /* caller-side bookkeeping for deriving flush / retire */
 static unsigned g_cDone, g_cNext; static size_t g_cFlushed; static unsigned long long g_cProduced; static int g_ckPending[RING]; static int g_inFrame;
 
-static void nap(unsigned us) { struct timespec ts; ts.tv_sec = 0; ts.tv_nsec = (long)us * 1000; nanosleep(&ts, NULL); }
+static void nap(unsigned us) { struct timespec ts; ts.tv_sec = us / 1000000; ts.tv_nsec = (long)(us % 1000000) * 1000; nanosleep(&ts, NULL); }
 static void perturb(int where, pthread_mutex_t* m) {   /* where: 0 before lock, 1 before unlock */
     serialState_t* const sr = __atomic_load_n(&g_serial, __ATOMIC_ACQUIRE);
     if (g_perturb == 1) { t_rng = t_rng * 1103515245u + 12345u; switch ((t_rng >> 16) & 7) { case 0: sched_yield(); break; case 1: nap((t_rng >> 20) & 255); break; case 2: nap(((t_rng >> 20) & 15) * 100); break; default: break; } }
@@ -73,6 +73,8 @@ static void perturb(int where, pthread_mutex_t* m) {   /* where: 0 before lock, 
     else if (g_perturb == 3) { if (t_worker < 0 && where == 0) nap(1500); }
     else if (g_perturb == 4) { if (sr && m == &sr->mutex && where == 1) nap(2500); }
     /* 5: jobs reach the serial section in the order 2,1,0 / 5,4,3 / ... : several jobs wait on the serial condition when their predecessor leaves */
+    /* 6: the worker of job 1 (and of job 9) stalls for a quarter of a second at the end of its serial section: the caller laps the round buffer meanwhile */
+    else if (g_perturb == 6) { static __thread unsigned napped = ~0u; if (sr && m == &sr->mutex && where == 1 && (t_jobID == 1 || t_jobID == 9) && napped != t_jobID) { napped = t_jobID; nap(250000); } }
     else if (g_perturb == 5) { if (t_worker >= 0 && sr && m == &sr->mutex && where == 0) nap(t_jobID % 3 == 0 ? 9000 : (t_jobID % 3 == 1 ? 4000 : 0)); }
 }
 /* caller: derive cksum / flush / retire from the change of its private counters since the last look */
@@ -163,10 +165,10 @@ int main(void) {
         char* op = strtok(line, " "); if (!op) continue;
         if (!strcmp(op, "mt")) {
             int workers = atoi(strtok(NULL, " ")); char* spec = strtok(NULL, " "); size_t n = (size_t)strtoull(strtok(NULL, " "), NULL, 10); unsigned long long seed = strtoull(strtok(NULL, " "), NULL, 10);
-            size_t ic[32], oc[32]; size_t ni = csv(strtok(NULL, " "), ic, 32), no = csv(strtok(NULL, " "), oc, 32); int abortAfter, midLevel, frames, f; const char* verdict = "ok"; char vbuf[200];
+            size_t ic[32], oc[32]; size_t ni = csv(strtok(NULL, " "), ic, 32), no = csv(strtok(NULL, " "), oc, 32); int abortAfter, midLevel, frames, f; const char* verdict = "ok"; char vbuf[200]; const char* spec2;
             unsigned char* src = (unsigned char*)malloc(n ? n : 1); size_t cap = ZSTD_compressBound(n) + 4096; unsigned char* dst = (unsigned char*)malloc(cap); unsigned char* back = (unsigned char*)malloc(n ? n : 1);
             ZSTD_CCtx* c; unsigned long long totIn = 0, totOut = 0; int doneFrames = 0;
-            g_perturb = atoi(strtok(NULL, " ")); g_pseed = (unsigned)strtoul(strtok(NULL, " "), NULL, 10); abortAfter = atoi(strtok(NULL, " ")); midLevel = atoi(strtok(NULL, " ")); frames = atoi(strtok(NULL, " "));
+            g_perturb = atoi(strtok(NULL, " ")); g_pseed = (unsigned)strtoul(strtok(NULL, " "), NULL, 10); abortAfter = atoi(strtok(NULL, " ")); midLevel = atoi(strtok(NULL, " ")); frames = atoi(strtok(NULL, " ")); { char* s2 = strtok(NULL, " "); spec2 = s2 ? s2 : spec; }
             g_len = 0; g_nworkers = 0; g_mt = NULL; g_serial = NULL; g_inFrame = 0; memset(g_job, 0, sizeof g_job); t_rng = g_pseed * 31u + 7;
             gen_data(src, n, seed); alarm(120);
             c = ZSTD_createCCtx(); g_cctx = c;
@@ -174,7 +176,7 @@ int main(void) {
                 size_t pos = 0, out = 0, r = 0; int calls = 0, ii = 0, oi = 0, started = 0, aborted = 0; char buf[512]; char* sv = NULL; char* kv;
                 ZSTD_CCtx_reset(c, ZSTD_reset_session_and_parameters);
                 ZSTD_CCtx_setParameter(c, ZSTD_c_nbWorkers, workers + (frames > 1 && f % 2 ? 1 : 0));       /* worker count changes between frames */
-                if (strcmp(spec, "-")) { strncpy(buf, spec, sizeof buf - 1); buf[sizeof buf - 1] = 0; for (kv = strtok_r(buf, ",", &sv); kv; kv = strtok_r(NULL, ",", &sv)) { int id, val; if (sscanf(kv, "%d=%d", &id, &val) == 2) ZSTD_CCtx_setParameter(c, (ZSTD_cParameter)id, val); } }
+                { const char* sp = (f % 2) ? spec2 : spec; if (strcmp(sp, "-")) { strncpy(buf, sp, sizeof buf - 1); buf[sizeof buf - 1] = 0; for (kv = strtok_r(buf, ",", &sv); kv; kv = strtok_r(NULL, ",", &sv)) { int id, val; if (sscanf(kv, "%d=%d", &id, &val) == 2) ZSTD_CCtx_setParameter(c, (ZSTD_cParameter)id, val); } } }
                 for (;;) { ZSTD_inBuffer ib; ZSTD_outBuffer ob; size_t isz = ic[ii++ % ni], osz = oc[oi++ % no]; ZSTD_EndDirective dir;
                     if (isz > n - pos) isz = n - pos; if (osz > cap - out) osz = cap - out; dir = (pos + isz == n) ? ZSTD_e_end : ((rnd() % 7) ? ZSTD_e_continue : ZSTD_e_flush);
                     ib.src = src + pos; ib.size = isz; ib.pos = 0; ob.dst = dst + out; ob.size = osz; ob.pos = 0;
